@@ -326,6 +326,8 @@ func (CrashScenario) Execute(sim *sched.Sim, ci interface{}, prop string, race b
 			}
 			cr.qs.Flush()
 			cr.sim.PassThrough.Store(false)
+			// what the restart procedure wrote (seeds, marker) is acknowledged
+			_, cr.safeOff = vlogWriteOffset(cr.dir)
 			cr.checkLive("after dirty restart")
 		}
 		// crash image at the instrumented point the system is parked at
